@@ -125,6 +125,44 @@ class Cells(Monitor):
     def on_trash(self, scheduler, handler):
         self.ids.pop(handler, None)
 
+    # the far family as it really acts: every cell-veto proposal must aim at (active cell of the occupancy + sampled
+    # offset) modulo the grid, otherwise a layer of nearby cells is treated twice and a far layer by nobody
+    def on_walker_sample(self, walker, name, args, kwargs, result, exc):
+        self.last_sampled = result
+
+    def on_send_event_time_begin(self, handler, args):
+        if self.ctx.kind(handler) == "cell_veto":
+            self.last_sampled = None
+
+    def on_send_event_time_end(self, handler, args, result):
+        ctx = self.ctx
+        if "C10" not in self.props or ctx.kind(handler) != "cell_veto" or getattr(self, "last_sampled", None) is None:
+            return
+        tagger = ctx.handler_tagger.get(handler)
+        for info in self.infos or []:
+            if getattr(tagger, "internal_state", None) is not info.state:
+                continue
+            actives = list(info.state.yield_active_cells())
+            if len(actives) != 1:
+                continue
+            active_cell = actives[0][0]
+            offset = self.last_sampled
+            ids = [c.identifier for c in info.cell_list]
+            per_side = [max(i[d] for i in ids) + 1 for d in range(len(ids[0]))]
+            expected = tuple((a + o) % n for a, o, n in zip(active_cell.identifier, offset.identifier, per_side))
+            try:
+                target = result[1][0]
+            except (TypeError, IndexError):
+                return
+            if tuple(target.identifier) != expected:
+                ctx.violation("C10", "cell_veto_target_is_not_a_far_cell_of_the_active_cell",
+                              {"active_cell": active_cell.identifier, "offset": offset.identifier,
+                               "target": target.identifier, "expected": expected})
+            if target in info.cells.nearby_cells(active_cell):
+                ctx.violation("C10", "cell_veto_targets_a_nearby_cell",
+                              {"active_cell": active_cell.identifier, "target": target.identifier})
+            ctx.probes["c10_cell_veto_targets_checked"] += 1
+
     def on_get(self, scheduler, handler):
         ctx = self.ctx
         if self.legs < 1:
